@@ -215,7 +215,7 @@ def _union_ret(stage, guard):
     return d
 
 
-@contract(R, "LogicalType.logical_parse", props=["C09", "C10", "C04", "C03", "C01", "C18"])
+@contract(R, "LogicalType.logical_parse", props=["C09", "C10", "C04", "C03", "C01", "C18", "C12"])
 class LOGICAL_PARSE:
     replay = "logical_parse"
     self_model = "LogicalClass"
@@ -343,7 +343,8 @@ LOGICAL_PARSE.clause_tags = {}
 for _lbl in list(_XOR) + list(_NOT) + list(_AND):
     LOGICAL_PARSE.clause_tags[_lbl] = ["C09", "C01"]
 for _lbl in _UNION:
-    LOGICAL_PARSE.clause_tags[_lbl] = ["C09", "C03", "C01"]
+    # C12: the union stages are built from the conversion preferences (strict first, then no-loss, then as configured)
+    LOGICAL_PARSE.clause_tags[_lbl] = ["C09", "C03", "C01", "C12"]
 LOGICAL_PARSE.clause_tags["clean"] = ["C09", "C10", "C01"]
 LOGICAL_PARSE.clause_tags["only_raises"] = ["C04"]
 LOGICAL_PARSE.clause_tags["conversion_attempts_bounded"] = ["C18"]
